@@ -216,3 +216,13 @@ def rules(ctx):
         every_vehicle_type(ctx, key, tag)
     from .C03 import location_names_are_total
     location_names_are_total(ctx, "R4")
+    # a wrong 3-opt delta lets the cycle search 'improve' for ever; a forgotten tour makes the decoding pop() from an empty list;
+    # a dummy id handed to improve_depots panics (rules shared with C15, C14, C11)
+    from .C15 import three_opt_reconnection
+    from .C11 import path_exchange_filters_vehicles
+    from . import C14
+    three_opt_reconnection(ctx, "R4")
+    path_exchange_filters_vehicles(ctx, "R4")
+    before = len(ctx.obligations)
+    C14.decoding(ctx, fd_)
+    ctx.obligations[before:] = [o for o in ctx.obligations[before:] if "decoding-accumulates" in o.id]
